@@ -1118,3 +1118,27 @@ def mode_setters_refuse_by_value_only(ctx, clause):
                               f'in the new mode while the ragged handle keeps reporting the old one')
     ctx.floor('accessmode setters', n, 3)
     return n
+
+
+def reset_handler_protects_write_only(ctx, clause, committer):
+    """A handler that empties the data file again (`os.truncate(path, 0)`: "the array is still empty") is sound only
+    while nothing in its try body has committed a length: with the commit inside the try, a failure late in the commit
+    (the README write comes after the descriptor rewrite) empties the file while the descriptor already says N rows
+    (seeded C02-17)."""
+    n = 0
+    for f in ctx.repo.cls('Array').all_funcs():
+        for t in (x for x in own_nodes(f.node) if isinstance(x, ast.Try)):
+            resets = [c for h in t.handlers for c in ast.walk(h) if isinstance(c, ast.Call) and
+                      (dotted(c.func) or '') in ('os.truncate', 'os.ftruncate') and len(c.args) > 1 and
+                      isinstance(c.args[1], ast.Constant) and c.args[1].value == 0]
+            if not resets:
+                continue
+            n += 1
+            body_nodes = {id(x) for st in t.body for x in ast.walk(st)}
+            commits = [node for node, cal in ctx.E.callees(f) if cal is committer and id(node) in body_nodes]
+            ctx.decide(not commits, 'R-ORDER', clause, f, commits[0] if commits else resets[0], 'reset-handler-scope',
+                       f'{f.qualname}: the handler that empties the data file protects the write only (no length commit inside its try)',
+                       detail='the length commit runs inside the try whose handler truncates the data file to 0: when the commit '
+                              'fails after the descriptor was rewritten (e.g. the README write), the file is emptied while the '
+                              'descriptor says the rows are there — file length != prod(shape) x itemsize')
+    return n
